@@ -20,19 +20,21 @@ import (
 func init() {
 	register(&Property{
 		ID:        "C17",
-		Technique: "syntax-tree analysis of the generator: emitted-literal scan against the registered import set, single-producer check for RPC names, abstract evaluation of the streaming-flag guards over their four assignments compared with the mux's extracted classification switch; type-level agreement check over checked-in generated code (thorough)",
+		Technique: "syntax-tree analysis of the generator: emitted-literal scan against the registered import set, single-producer check for RPC names, abstract evaluation of the streaming-flag guards over their four assignments compared with the mux's extracted classification switch; abstract interpretation of the generator's emit statements over a finite descriptor domain with symbolic names, the resulting text parsed and type-checked (go/parser, go/types) against the runtime packages of the analysed tree; type-level agreement check over checked-in generated code (thorough)",
 		Explanation: "The ways a service descriptor can influence the generated file that are visible in the generator's source: " +
 			"(R1) qualified identifiers: no emitted string literal names an imported package directly (protogen may rename imports), except the runtime package whose import is registered before any descriptor-derived identifier on every path; " +
 			"(R2) RPC names have a single producer (RPCGoString = '/' + service full name + '/' + method name from the descriptor), which is what the client stubs and the server description both emit; no other emitted literal starts an RPC path; " +
 			"(R4) shape agreement for every descriptor: the generator's behaviour depends on a method only through its two streaming flags, so its four method-expression shapes are read off the guards (evaluated as truth tables) and pushed through the mux's own classification switch (extracted from registerOne): unary flag, which parameter is the request message, and stream-vs-message input must equal what the generated receiver closure asserts and what Mux.HandleRPC supplies; the client side's Invoke/NewStream choice and 'in' argument follow the same flags; " +
+			"(R8) the generator's syntax tree is evaluated (not compiled or run) over abstract files - one service with the four method shapes, several services with equal method names, services without methods, underscored names that collide unless escaped, messages of another package, a single unary method - times the option settings (both built-in libraries with and without json, a user codec package with all four functions, one with Marshal/Unmarshal only); descriptor-derived names are symbolic identifiers, imports are registered as protogen does; each resulting text must parse, type-check against storj.io/drpc and drpcerr as they are in the tree (unused imports, missing returns, undefined or redeclared identifiers, wrong argument lists are type errors), and its description rows, NumMethods and client stubs must name the descriptor's RPCs consistently; " +
 			"(R3, thorough) for every checked-in generated file in the test sub-modules, each drpc.Description's NumMethods equals its number of cases and client stubs and descriptions use equal RPC name constants.",
-		NotDecided: "well-typedness of the whole generated file for all descriptors (identifier mangling collisions between services/methods, zero-method services, protolib options): that quantifies over the generator's textual output; running the generator and type-checking what it prints is another family of technique.",
+		NotDecided: "well-typedness of the generated file for descriptors outside the abstract domain of R8 (name clashes with Go keywords or with identifiers of the sibling .pb.go file, nested/imported message name mangling done by protogen itself, comments and deprecation options); protogen and the third-party protobuf libraries are modelled by their API (gogo and, when not part of the build, google protobuf), not analysed. Constructs of the generator the evaluator does not model make R8 UNDECIDED, never discharged.",
 		Rules: []Rule{
 			{ID: "C17.R1", Doc: "emitted literals never name an imported package directly (except the first-registered runtime import)", Run: c17r1},
 			{ID: "C17.R2", Doc: "every RPC name the generator emits (Invoke, NewStream, description) evaluates symbolically to the quoted \"/\" + service full name + \"/\" + proto method name", Run: c17r2},
 			{ID: "C17.R4", Doc: "the four generated method shapes, pushed through the mux's extracted switch, agree with the receiver closure and HandleRPC", Run: c17r4},
 			{ID: "C17.R5", Doc: "identifier helpers that join two descriptor names with '_' escape '_' in both parts (injective mangling)", Run: c17r5},
 			{ID: "C17.R6", Doc: "plugin options (protolib, json) are read only inside the Run callback, through the variables the flags are bound to: no copy is taken before the parameters are parsed", Run: c17r6},
+			{ID: "C17.R8", Doc: "abstract evaluation of the generator over a descriptor domain (four method shapes, several services, services without methods, colliding underscored names, messages of another package) and the option settings: the printed text parses and type-checks against the runtime packages", Run: c17r8},
 			{ID: "C17.R7", Doc: "the helpers that compute generated identifiers and RPC names from a service/method are functions of their arguments: they keep no state between calls", Run: c17r7},
 			{ID: "C17.R3", Doc: "checked-in generated files: NumMethods == number of cases; client and description RPC constants agree", Run: c17r3, Tier: "thorough", Scope: "sub:internal/integration"},
 		},
@@ -744,8 +746,10 @@ func c17r4(c *an.Ctx) {
 			cc := st.(*ast.CaseClause)
 			if len(cc.List) == 0 {
 				for _, s2 := range cc.Body {
-					if _, isRet := s2.(*ast.ReturnStmt); isRet {
-						hasDefaultErr = true
+					if ret, isRet := s2.(*ast.ReturnStmt); isRet && len(ret.Results) > 0 {
+						if id, isId := ret.Results[len(ret.Results)-1].(*ast.Ident); !isId || id.Name != "nil" {
+							hasDefaultErr = true
+						}
 					}
 				}
 				continue
@@ -818,7 +822,7 @@ func c17r4(c *an.Ctx) {
 		}
 		return false
 	})
-	if !c.Check(len(cases) >= 3 && hasDefaultErr && !unknownCase, "registerOne | classification switch extracted", c.P.Pos(ro.Pos()), fmt.Sprint(cases), "cannot extract the mux's method classification switch") {
+	if !c.Check(len(cases) >= 3 && hasDefaultErr && !unknownCase, "registerOne | classification switch extracted", c.P.Pos(ro.Pos()), fmt.Sprint(cases), "cannot extract the mux's method classification switch (three or more cases on NumIn/NumOut and a default that returns an error)") {
 		return
 	}
 	classify := func(sh shape) (muxCase, bool) {
